@@ -21,7 +21,7 @@
     replayed on the Go code by the harness, and is an open known finding);
     next to each stands the exact characterisation that does hold. *)
 From Coq Require Import List NArith Bool Arith Strings.String.
-From Atlas Require Import Base.Bytes Dir.DirModel Dir.DirProofs Dir.DirDetect Dir.DirEdits
+From Atlas Require Import Base.Bytes Dir.DirModel Dir.DirProofs Dir.DirDetect Dir.DirEdits Dir.DirGlob
   Dir.DirRefuted Dir.DirWriters Dir.DirToyHash.
 Import ListNotations.
 
@@ -60,14 +60,30 @@ Proof. exact (untouched_refuted_lemma HS HS_shape). Qed.
     the two directories collide ([collision] exhibits them).  [names_wf]:
     ".sql" occurs in every name exactly once, as the suffix (decidable; true
     of every name Atlas generates; reported by the check).
-    Not proved: the form without [names_wf d'] (DESIGN section 4: it needs
-    further disjuncts for self-referential hashes). *)
+    The form without [names_wf d'] is [C06_detect_glob] below. *)
 Theorem C06_detect :
   forall d d' : list file,
   names_wf d = true -> names_wf d' = true ->
   validate HS d' (Some (marshal HS (newhash HS d))) = VOk ->
   covered d = covered d' \/ collision HS (hash_inputs HS d ++ hash_inputs HS d').
 Proof. exact (detect_lemma HS HS_shape). Qed.
+
+(** The same against EVERY directory Dir.Files() can return: nothing is
+    assumed of the tampered names except that they end in ".sql" ([all_sql];
+    Glob "*.sql" guarantees it).  The price is a third disjunct about the
+    ORIGINAL directory only: [embedded_hash HS d] exhibits two of d's own hash
+    streams s, t with HS s occurring inside t (a migration file that quotes
+    the base64 SHA-256 of a prefix of the very stream it belongs to: decidable
+    for the directory at hand, and for a random-looking hash infeasible unless
+    deliberately constructed by the directory's author). *)
+Theorem C06_detect_glob :
+  forall d d' : list file,
+  names_wf d = true -> all_sql d' = true ->
+  validate HS d' (Some (marshal HS (newhash HS d))) = VOk ->
+  covered d = covered d' \/
+  collision HS (hash_inputs HS d ++ hash_inputs HS d') \/
+  embedded_hash HS d.
+Proof. exact (detect_glob_lemma HS HS_shape). Qed.
 
 (** * 3. No sum-ignored file on either side: every change is detected *)
 
@@ -230,6 +246,7 @@ Proof. exact (ex_intro _ toy_hs toy_hs_shape). Qed.
 Print Assumptions C06_untouched_validates.
 Print Assumptions C06_untouched_refuted.
 Print Assumptions C06_detect.
+Print Assumptions C06_detect_glob.
 Print Assumptions C06_detect_plain.
 Print Assumptions C06_detect_plain_checksum_error.
 Print Assumptions C06_single_edit_detected.
@@ -270,6 +287,14 @@ Example ex_detect :
   names_wf ex_d2 = true /\ ex_d2 <> ex_d /\ validate toy_hs ex_d2 (ex_sum ex_d) = VOk /\
   covered ex_d = covered ex_d2 /\ view ex_d = view ex_d2.
 Proof. vm_compute. repeat split; try reflexivity. discriminate. Qed.
+
+(* 2': a tampered directory with a non-wf name (".sql" twice) meets all_sql and is refused *)
+Example ex_detect_glob :
+  all_sql [(bs "1_a.sql.sql", bs "CREATE TABLE a;" ++ [NL]); (bs "3_c.sql", bs "Y;" ++ [NL])] = true /\
+  names_wf [(bs "1_a.sql.sql", bs "CREATE TABLE a;" ++ [NL]); (bs "3_c.sql", bs "Y;" ++ [NL])] = false /\
+  validate toy_hs [(bs "1_a.sql.sql", bs "CREATE TABLE a;" ++ [NL]); (bs "3_c.sql", bs "Y;" ++ [NL])] (ex_sum ex_p)
+    = VChecksum 2 2 48 (bs "1_a.sql") Removed.
+Proof. vm_compute. repeat split; reflexivity. Qed.
 
 (* 3: the hypotheses hold and each single edit kind yields a *ChecksumError *)
 Example ex_plain :
